@@ -85,6 +85,8 @@ type Op struct {
 	// multiple modules, it will be called for each") instead of a registration of its own.  Such a notifier cannot tell
 	// the instances apart: the multiset of exit codes it received is compared.
 	Shared bool `json:"shared,omitempty"`
+	// Sparse (inst with pre=badfs, sequential histories): see the instantiation of "badfs"
+	Sparse bool `json:"sparse,omitempty"`
 }
 
 func (o Op) Token() string {
@@ -152,6 +154,7 @@ type world struct {
 	allocs              map[int]int
 	frees               map[int]int
 	dirOpens, dirCloses map[int]int                      // per instance: handles handed out by / closed on its mounted (bad) file system
+	dirLive             map[int]map[int]bool             // per instance: ids of the handles not closed yet
 	pool                []int                            // handles of successfully instantiated modules, in response order
 	builders            map[int]wazero.HostModuleBuilder // per name: the builder object reused by every "hostb" instantiation
 	// one close-notifier registration shared by all `Shared` instantiations
@@ -170,7 +173,7 @@ func newWorld(engine string) *world {
 	}
 	rc = rc.WithCloseOnContextDone(true)
 	w := &world{engine: engine, rt: wazero.NewRuntimeWithConfig(ctx, rc), mods: map[int]api.Module{},
-		ptr: map[*wasm.ModuleInstance]int{}, notes: map[int][]uint32{}, allocs: map[int]int{}, frees: map[int]int{}, dirOpens: map[int]int{}, dirCloses: map[int]int{}}
+		ptr: map[*wasm.ModuleInstance]int{}, notes: map[int][]uint32{}, allocs: map[int]int{}, frees: map[int]int{}, dirOpens: map[int]int{}, dirCloses: map[int]int{}, dirLive: map[int]map[int]bool{}}
 	c, err := w.rt.CompileModule(ctx, bin)
 	if err != nil {
 		hx.Fatal("setup compile: %v", err)
@@ -302,24 +305,39 @@ type badFS struct {
 
 type badDir struct {
 	experimentalsys.UnimplementedFile
-	w *world
-	h int
+	w  *world
+	h  int
+	id int
+	// closes: Close succeeds (else EIO)
+	closes bool
 }
 
-func (f badFS) OpenFile(string, experimentalsys.Oflag, fs.FileMode) (experimentalsys.File, experimentalsys.Errno) {
+func (f badFS) OpenFile(path string, _ experimentalsys.Oflag, _ fs.FileMode) (experimentalsys.File, experimentalsys.Errno) {
+	id := 0
 	if f.w != nil {
 		f.w.mu.Lock()
 		f.w.dirOpens[f.h]++
+		id = f.w.dirOpens[f.h]
+		if f.w.dirLive[f.h] == nil {
+			f.w.dirLive[f.h] = map[int]bool{}
+		}
+		f.w.dirLive[f.h][id] = true
 		f.w.mu.Unlock()
 	}
-	return badDir{w: f.w, h: f.h}, 0
+	// (only the mount's root fails to close; the files "f<k>" of the sparse-table histories close fine, so that
+	// closing a descriptor really frees its slot)
+	return badDir{w: f.w, h: f.h, id: id, closes: strings.HasPrefix(path, "f")}, 0
 }
 func (badDir) IsDir() (bool, experimentalsys.Errno) { return true, 0 }
 func (d badDir) Close() experimentalsys.Errno {
 	if d.w != nil {
 		d.w.mu.Lock()
 		d.w.dirCloses[d.h]++
+		delete(d.w.dirLive[d.h], d.id) // (a handle whose Close fails may be closed again: what counts is that each was closed)
 		d.w.mu.Unlock()
+	}
+	if d.closes {
+		return 0
 	}
 	return experimentalsys.EIO
 }
@@ -328,8 +346,8 @@ func (d badDir) Close() experimentalsys.Errno {
 func (w *world) dirLeak(h int) string {
 	w.mu.Lock()
 	defer w.mu.Unlock()
-	if w.dirOpens[h] != w.dirCloses[h] {
-		return fmt.Sprintf("handle %d: the mounted file system handed out %d directory handle(s), %d were closed", h, w.dirOpens[h], w.dirCloses[h])
+	if n := len(w.dirLive[h]); n > 0 {
+		return fmt.Sprintf("handle %d: the mounted file system handed out %d file / directory handle(s), %d of them were never closed", h, w.dirOpens[h], n)
 	}
 	return ""
 }
@@ -395,6 +413,27 @@ func (w *world) do(o Op) (res rawRes) {
 					if s := unwrap(m).Sys; s != nil {
 						if f, ok := s.FS().LookupFile(3); ok {
 							f.File.IsDir()
+							if o.Sparse {
+								// a SPARSE descriptor table: descriptors up to 139 opened, then 64..127 closed again (an empty
+								// 64-descriptor block between used ones, as fd_renumber to a high number or a burst of opens
+								// leaves it): closing the instance releases what lies behind the gap as well
+								for k := 0; k < 136; k++ {
+									s.FS().OpenFile(f.FS, fmt.Sprintf("f%d", k), experimentalsys.O_RDONLY, 0)
+								}
+								closed := 0
+								for fd := int32(64); fd < 128; fd++ {
+									if s.FS().CloseFile(fd) != experimentalsys.EBADF {
+										closed++
+									}
+								}
+								last := int32(-1)
+								for fd := int32(0); fd < 400; fd++ {
+									if _, ok := s.FS().LookupFile(fd); ok {
+										last = fd
+									}
+								}
+								rep.Count(fmt.Sprintf("sparse-table:closed-%d-highest-fd-%d", closed, last))
+							}
 						}
 					}
 				}()
@@ -632,7 +671,7 @@ func genSeq(r *rand.Rand, n int) []Op {
 			if (pre == "host" || pre == "hostb") && name == 0 {
 				name = 1 + r.Intn(3) // API rule: a host module name must not be empty
 			}
-			ops = append(ops, Op{Kind: "inst", H: nextH, Name: name, Pre: pre, Shared: r.Intn(3) == 0})
+			ops = append(ops, Op{Kind: "inst", H: nextH, Name: name, Pre: pre, Shared: r.Intn(3) == 0, Sparse: pre == "badfs" && r.Intn(2) == 0})
 			nextH++
 		case x < 38:
 			ops = append(ops, Op{Kind: "instfail", Name: r.Intn(4), Fail: failKinds[r.Intn(len(failKinds))]})
@@ -1494,6 +1533,11 @@ func main() {
 			runSeq(engine, []Op{{Kind: "inst", H: 1, Name: 1, Pre: "none"}, {Kind: "close", H: 1, Code: code}, {Kind: "isclosed", H: 1}, {Kind: "look", Name: 1},
 				{Kind: "inst", H: 2, Name: 1, Pre: "bin"}, {Kind: "close", H: 1, Code: 5}, {Kind: "look", Name: 1}, {Kind: "isclosed", H: 2}}, cfg, orc)
 		}
+	}
+	// resources behind a gap: instances whose descriptor table is sparse, closed one by one and by the runtime
+	for _, engine := range []string{"interpreter", "compiler"} {
+		runSeq(engine, []Op{{Kind: "inst", H: 1, Name: 1, Pre: "badfs", Sparse: true}, {Kind: "inst", H: 2, Name: 2, Pre: "badfs"}, {Kind: "close", H: 1, Code: 3}, {Kind: "isclosed", H: 1},
+			{Kind: "inst", H: 3, Name: 1, Pre: "badfs", Sparse: true}, {Kind: "look", Name: 1}, {Kind: "rtclose", Code: 0}}, cfg, orc)
 	}
 	peaks := []int{130, 210, 405}
 	if hx.Thorough() {
